@@ -48,7 +48,14 @@ func runC04(p *load.Program, r *oblig.Report) {
 	// the v2 record batch inside a Produce body: header layout and back-patched fields (C05.R1)
 	shareRules(r, "C04", "C04.R10 the record batch of a produce request is canonical", func(sub *oblig.Report) { c05WriterV2(p, sub) })
 	// a response is consumed as exactly one frame also when it carries an error code (C11.R1)
-	shareRules(r, "C04", "C04.R11 an error code does not leave part of the frame unread", func(sub *oblig.Report) { newC11(p, sub).ruleR1() })
+	shareRules(r, "C04", "C04.R11 an error code does not leave part of the frame unread", func(sub *oblig.Report) {
+		c := newC11(p, sub)
+		c.ruleR1()
+		c.ruleR13()
+	})
+	// whether the SASL token travels raw or inside a SaslAuthenticate frame (with its request header) is decided
+	// from the negotiated SaslHandshake version (C18.R3)
+	shareRules(r, "C04", "C04.R13 the SASL token is framed as the handshake version requires", func(sub *oblig.Report) { c18RawFramed(p, sub) })
 	c17StaleSize(p, r, "C04.R8 the hand-written reader consumes exactly what it accounts for")
 }
 
